@@ -102,11 +102,15 @@ func main() {
 			for i := 0; i < nb; i++ {
 				bs = append(bs, kit.Batch{Name: fmt.Sprintf("hist%d", i), Seed: seed*1000 + int64(i), N: n})
 			}
+			// ports are shared between the connection's and the owner's goroutine under the parallel engine
+			for i, g := range []string{"2", "4", "16"} {
+				bs = append(bs, kit.Batch{Name: "concurrent" + g, Seed: seed*1000 + 500 + int64(i), N: n / 15, Env: []string{"GOMAXPROCS=" + g}})
+			}
 			return bs
 		},
 		Run: run,
 		MustObserve: []string{"edge_recv_on_empty", "edge_portfree_on_full", "edge_available_on_full", "edge_send_on_empty",
-			"refused_send_when_full", "refused_deliver_when_full", "incoming_full_reached", "outgoing_full_reached"},
+			"refused_send_when_full", "refused_deliver_when_full", "incoming_full_reached", "outgoing_full_reached", "concurrent_histories_with_several_wakeups"},
 	})
 }
 
@@ -136,6 +140,10 @@ func callRefused(f func()) (refused bool, msg string) {
 }
 
 func run(b kit.Batch, r *kit.R) {
+	if strings.HasPrefix(b.Name, "concurrent") {
+		runConcurrent(b, r)
+		return
+	}
 	r.ForEach(b.N, func(c *kit.Case) {
 		rng := c.Rng
 		var notes []note
